@@ -236,6 +236,18 @@ Record cred := {
                                     in the order the map happens to present them; None = error *)
 }.
 
+(* time.Time as (Unix seconds, nanoseconds within the second, 0 <= nanos < 10^9);
+   dt.Unix() is the seconds component: the fraction is dropped towards minus
+   infinity, never rounded.  [cred_at] builds the credential from the instant
+   vc.Expiration denotes; ToCoreClaim reads it through Unix() only. *)
+Record gotime := { gt_sec : Z; gt_nanos : Z }.
+Definition time_unix (t : gotime) : Z := gt_sec t.
+Definition cred_at (mz : option mzview) (subj : option string) (exp : option gotime)
+  (ctx : option (list term)) : cred :=
+  {| c_mz := mz; c_subject := subj;
+     c_expiration := match exp with Some t => Some (time_unix t) | None => None end;
+     c_ctx := ctx |}.
+
 (* ---------- findCredentialType ---------- *)
 Definition vc_type_iri := "https://www.w3.org/2018/credentials#VerifiableCredential".
 
